@@ -20,8 +20,8 @@ func init() {
 			"Oracle: byte equality of the per-height digest = sha256(BeginBlock events, every DeliverTx {code, codespace, data, gas used, events}, out-of-band execution results, EndBlock events and validator updates, Commit app hash). Log strings are left out (not hashed by Tendermint). " +
 			"Non-trivial: >=25 transactions, >=1 accepted update and >=4 distributor states in the history. Distinct by history hash. Thorough additionally replays a slice under the race detector (see DESIGN.md 1.7).",
 		Assumptions:   []string{"replicas are driven serially, as Tendermint drives ABCI"},
-		Cases:         func(t string) int { return tierN(t, 48, 1500) },
-		MinNontrivial: func(t string) int { return tierN(t, 4, 200) },
+		Cases:         func(t string) int { return tierN(t, 96, 1500) },
+		MinNontrivial: func(t string) int { return tierN(t, 8, 200) },
 		Run:           runC11,
 		Extra: func(tier string, seed int64, agg *fw.Aggregate) {
 			if tier == "thorough" || os.Getenv("VERIF_RACE") != "" {
